@@ -126,6 +126,110 @@ def check_graph(mods, tmproot):
     return problems
 
 
+def pkg_statements(k):
+    """Statement alphabet for top-level package q{i} among k packages (no wildcards: those are the single-package tier's business)."""
+    out = ["x = 1", "y = 2", "from missing_pkg import x", "__all__ = ['x']", "__all__ = ['x', 'y']"]
+    for j in range(k):
+        out += [f"from q{j} import x", f"from q{j} import y", f"from q{j} import y as x", f"from q{j} import x as y", f"import q{j}"]
+    return out
+
+
+def check_packages(mods, order, external, implicit, tmproot):
+    """Several top-level packages q0.. in one collection: those in `order` are loaded (in that order), the others may be loaded by alias resolution
+    (external=True); then resolve_aliases twice. Returns the list of problems."""
+    problems = []
+    for i, src in enumerate(mods):
+        d = Path(tmproot) / f"q{i}"
+        d.mkdir()
+        (d / "__init__.py").write_text(src + "\n")
+    signal.signal(signal.SIGALRM, _alarm)
+    signal.alarm(8)
+    try:
+        ld = GriffeLoader(search_paths=[tmproot])
+        try:
+            for i in order:
+                ld.load(f"q{i}")
+            r1 = ld.resolve_aliases(implicit=implicit, external=external)
+        except Timeout:
+            return ["load/resolve_aliases did not terminate within 8 s"]
+        except BaseException as e:  # noqa: BLE001
+            return [f"load/resolve_aliases raised {type(e).__name__}: {str(e)[:80]}"]
+
+        def state():
+            return {a.path: (a.resolved, a.target_path) for top in list(ld.modules_collection.members.values()) for a in walk_aliases(top)}
+        state1, loaded1 = state(), sorted(ld.modules_collection.members)
+        signal.alarm(8)
+        try:
+            r2 = ld.resolve_aliases(implicit=implicit, external=external)
+        except Timeout:
+            return ["second resolve_aliases did not terminate"]
+        except BaseException as e:  # noqa: BLE001
+            return [f"second resolve_aliases raised {type(e).__name__}"]
+        state2, loaded2 = state(), sorted(ld.modules_collection.members)
+        if loaded1 != loaded2:
+            problems.append(f"resolving again loaded further packages (no fixpoint): {loaded1} -> {loaded2}")
+        elif state1 != state2:
+            ch = sorted(k for k in state2 if state1.get(k) != state2[k])
+            problems.append(f"resolving again changed the tree (no fixpoint): {ch[:3]} (first call reported {sorted(r1[0])[:3]} unresolved, second {sorted(r2[0])[:3]})")
+        for top in list(ld.modules_collection.members.values()):
+            for a in walk_aliases(top):
+                signal.alarm(3)
+                try:
+                    ft = a.final_target
+                    if ft.is_alias:
+                        problems.append(f"{a.path}.final_target is an alias")
+                except (AliasResolutionError, CyclicAliasError):
+                    pass
+                except Timeout:
+                    problems.append(f"{a.path}.final_target loops")
+                    return problems
+                except BaseException as e:  # noqa: BLE001
+                    problems.append(f"{a.path}.final_target raised {type(e).__name__}")
+    except Timeout:
+        problems.append("access loops (timeout)")
+    finally:
+        signal.alarm(0)
+    return problems
+
+
+def sweep_packages(k, n_random, seed, budget_s=60):
+    """Directed re-export chains across packages + seeded random package sets; every load order prefix, external in (True, False, None), implicit in (True, False)."""
+    import time
+    st = pkg_statements(k)
+    rnd = random.Random(seed)
+    sets = [
+        ("from q1 import x", "x = 1\nfrom q2 import y", "from q3 import y", "y = 2"),                                  # chain discovered package by package
+        ("from q1 import y\n__all__ = ['y']", "from q2 import y", "from q3 import y", "y = 2"),                          # the same through aliases that are not exported
+        ("from q1 import x", "from q2 import x", "from q3 import x", "from q0 import x"),                                # a cycle through four packages
+        ("from q1 import x\nfrom q2 import y", "from q2 import y as x", "from q3 import x as y", "x = 1"),
+        ("from q3 import x", "x = 1", "from q1 import x", "from q2 import x\nfrom missing_pkg import y"),
+    ]
+    for _ in range(n_random):
+        sets.append(tuple("\n".join(rnd.sample(st, rnd.choice((1, 2, 2, 3)))) for _ in range(k)))
+    orders = [(0,), (0, 1), (1, 0), (3, 2, 1, 0), (0, 1, 2, 3)]
+    bad, done, t0 = [], 0, time.time()
+    for n, mods in enumerate(sets):
+        if time.time() - t0 > budget_s or len(bad) >= 5:
+            break
+        for order in (orders if n < 5 else [rnd.choice(orders)]):
+            for external in (True, False, None):
+                for implicit in (True, False):
+                    done += 1
+                    with tempfile.TemporaryDirectory() as tmp:
+                        pr = check_packages(list(mods), order, external, implicit, tmp)
+                    if pr:
+                        bad.append({"packages": list(mods), "load_order": list(order), "external": external, "implicit": implicit, "problems": pr[:3],
+                                    "signature": "packages:" + json.dumps([list(mods), list(order), external, implicit]), "root_cause": []})
+                        break
+                else:
+                    continue
+                break
+            else:
+                continue
+            break
+    return {"cases": done, "bad": bad}
+
+
 def root_cause(graph, problems):
     """Root-cause class of a failure on the pinned tree (known findings), else []."""
     import re
@@ -228,6 +332,9 @@ def replay_alias_graphs(w, obligation, expects):
 
 
 if __name__ == "__main__":
+    if sys.argv[1] == "packages":
+        print(json.dumps(sweep_packages(4, int(sys.argv[2]), int(sys.argv[3]), int(sys.argv[4]) if len(sys.argv) > 4 else 60)))
+        sys.exit(0)
     k, n, seed = int(sys.argv[1]), int(sys.argv[2]), int(sys.argv[3])
     budget = int(sys.argv[4]) if len(sys.argv) > 4 else 240
     print(json.dumps(sweep(k, n, seed, budget)))
